@@ -1,8 +1,11 @@
 package mon
 
 import (
+	"bytes"
 	"context"
 	"fmt"
+	"os"
+	"path/filepath"
 	"reflect"
 	"sync"
 	"sync/atomic"
@@ -27,7 +30,7 @@ func init() {
 		Rule: "binary built with -race (which also enables checkptr). 8-24 goroutines call every public entry point of the engine facade - the method set is taken by reflection from " +
 			"*EngineFacade so that new entry points are exercised with synthesised arguments (Close and SetReadOnly excluded) - plus read-only and read-write transactions with iterators, the " +
 			"transaction registry (begin with short deadlines, get, remove, stale sweep, connection cleanup), batch writes, explicit flush, compaction, range compaction, statistics and the log's " +
-			"sequence/retention entry points, on an engine with 1 byte .. 4KB memtables and a 1s compaction interval, with PRNG yields at the hook sites. Race reports are read from the detector's " +
+			"sequence/retention entry points, on an engine with 1 byte .. 4KB memtables and a 1s compaction interval, with PRNG yields at the hook sites. Every 7th case instead keeps an unreadable table file in the table directory during two background compaction ticks (failing cycles), removes it, and requires TriggerCompaction, CompactRange, FlushImMemTables and Close to return. Race reports are read from the detector's " +
 			"log after every case and de-duplicated by the sorted pair of the first kevo frames; any report, fatal error, panic or non-zero worker exit is a violation with the report as witness; " +
 			"a case that does not finish within 120s is a hang violation with the goroutine dump as witness. distinct = hash(config, goroutines, seed); non-trivial = >= 1 flush and >= 1 " +
 			"compaction ran while clients were active and every reflected method was called",
@@ -61,7 +64,82 @@ func drainIt(it iterator.Iterator, max int) {
 	}
 }
 
+// c07FailedCycle: background maintenance that *fails* for a while (a table file that cannot be read sits in the
+// table directory during two compaction ticks, e.g. a file still being copied in) must not take anything with
+// it: every later call returns, including the explicit compaction calls and Close.
+func c07FailedCycle(c *core.Ctx, res *core.Result) {
+	r := c.Rand
+	cfg := kv.Cfg{MemTableSize: []int64{1024, 4096}[r.Intn(2)], MaxMemTables: r.Range(1, 4), SyncMode: 0, CompactSecs: 1}
+	dir := c.Dir + "/db"
+	eng, err := kv.Open(dir, cfg)
+	if err != nil {
+		res.Violate("open_error", err.Error(), nil)
+		return
+	}
+	closed := false
+	defer func() {
+		if !closed {
+			eng.Close()
+		}
+	}()
+	var stop atomic.Bool
+	var wg sync.WaitGroup
+	var calls atomic.Int64
+	for g := 0; g < 4; g++ {
+		wg.Add(1)
+		rr := r.Derive(uint64(g + 1))
+		go func() {
+			defer wg.Done()
+			for !stop.Load() {
+				k := []byte(fmt.Sprintf("f%03d", rr.Intn(60)))
+				if rr.Chance(60) {
+					eng.Put(k, bytes.Repeat([]byte{'x'}, rr.Range(10, 300)))
+				} else {
+					eng.Get(k)
+				}
+				calls.Add(1)
+				time.Sleep(200 * time.Microsecond)
+			}
+		}()
+	}
+	time.Sleep(300 * time.Millisecond)
+	eng.FlushImMemTables()
+	junk := filepath.Join(dir, "sst", fmt.Sprintf("%d_%06d_%020d.sst", 0, 999, time.Now().UnixNano()))
+	os.WriteFile(junk, []byte("not a table file"), 0644)
+	time.Sleep(2300 * time.Millisecond) // two ticks of the background compaction see it
+	os.Remove(junk)
+	feat := map[string]string{"kind": "failed_background_cycle"}
+	step := func(name string, f func()) bool {
+		done := make(chan struct{})
+		go func() { f(); close(done) }()
+		select {
+		case <-done:
+			return true
+		case <-time.After(20 * time.Second):
+			res.Violate("hang", fmt.Sprintf("after two background compaction cycles that failed (an unreadable table file was in the table directory for 2.3s and has been removed) %s did not return within 20s\n%s", name, blockedKevoStacks()), feat)
+			return false
+		}
+	}
+	ok := step("TriggerCompaction", func() { eng.TriggerCompaction() }) &&
+		step("CompactRange", func() { eng.CompactRange([]byte("f000"), []byte("f999")) }) &&
+		step("FlushImMemTables", func() { eng.FlushImMemTables() })
+	stop.Store(true)
+	wg.Wait()
+	if ok && step("Close", func() { eng.Close() }) {
+		closed = true
+	}
+	res.Count("failed_cycle_scenarios", 1)
+	res.Count("calls", calls.Load())
+	res.Count("flushes", 1)
+	res.Sig = core.Sig("failedcycle", cfg.String())
+	res.Nontrivial = true
+}
+
 func runC07(c *core.Ctx, res *core.Result) {
+	if c.Idx%7 == 6 {
+		c07FailedCycle(c, res)
+		return
+	}
 	r := c.Rand
 	cfg := kv.Cfg{MemTableSize: []int64{1, 200, 1024, 4096}[r.Intn(4)], MaxMemTables: r.Range(1, 4), SyncMode: []int{0, 0, 1, 2}[r.Intn(4)], CompactSecs: 1}
 	eng, err := kv.Open(c.Dir+"/db", cfg)
